@@ -447,7 +447,13 @@ fn apply_removals(
 
     let mut client_entity = match params.entity_map.server_entry(server_entity) {
         EntityEntry::Occupied(entry) => {
-            DeferredEntity::new(world.get_entity_mut(entry.get())?, params.changes)
+            let mut client_entity =
+                DeferredEntity::new(world.get_entity_mut(entry.get())?, params.changes);
+            if !client_entity.contains::<Replicated>() {
+                // The entity was reserved by a component that referenced it before its own data arrived.
+                client_entity.insert(Replicated);
+            }
+            client_entity
         }
         EntityEntry::Vacant(entry) => {
             // It's possible to receive a removal when an entity is spawned and has a component removed in the same tick.
@@ -509,7 +515,13 @@ fn apply_changes(
 
     let mut client_entity = match params.entity_map.server_entry(server_entity) {
         EntityEntry::Occupied(entry) => {
-            DeferredEntity::new(world.get_entity_mut(entry.get())?, params.changes)
+            let mut client_entity =
+                DeferredEntity::new(world.get_entity_mut(entry.get())?, params.changes);
+            if !client_entity.contains::<Replicated>() {
+                // The entity was reserved by a component that referenced it before its own data arrived.
+                client_entity.insert(Replicated);
+            }
+            client_entity
         }
         EntityEntry::Vacant(entry) => {
             let mut client_entity = DeferredEntity::new(world.spawn_empty(), params.changes);
